@@ -9,6 +9,11 @@ callbacks).  Helper lemmas live in `NeoModel.Proofs.Tokens*`.
 of the Notary contract; `inv_reading` below spells it out.
 -/
 import NeoModel.Proofs.TokensCand
+import NeoModel.Proofs.TokensGov
+import NeoModel.Proofs.TokensReward
+import NeoModel.Proofs.TokensCoh
+import NeoModel.Proofs.TokensNotary
+import NeoModel.Proofs.TokensVoter
 namespace NeoModel.Tokens
 
 /-- What `Inv` says, in the property's words: the NEO supply is exactly 100 000 000 and equals the sum of the
@@ -31,14 +36,20 @@ theorem inv_reading (nt : Nat) (l : Ledger) (h : Inv nt l) :
 /-- `inv_init`: the state after the natives' initialisation in block 0 satisfies the invariant
 (both initial supplies go to the standby validators' address `h`, which is not the Notary contract). -/
 theorem inv_init (e : Env) (h : Nat) (gasInit : Int) (l : Ledger)
-    (hn : h ≠ e.notary) (hc : e.neoC ≠ e.notary) (hg : genesis h gasInit = some l) :
+    (hn : h ≠ e.notary) (hc : e.neoC ≠ e.notary) (hg : genesis e h gasInit = some l) :
     MInv e.notary (initSt e l) :=
-  have hi := genesis_inv e.notary h gasInit l hn hg
+  have hi := genesis_inv e.notary e h gasInit l hn hg
   ⟨rfl, hc, hi, hi⟩
 
+/-- a two-member committee (standby keys 10, 11), one validator; accounts 110.. of the keys 10.. -/
+def exEnv : Env :=
+  { notary := 90, neoC := 91, csize := 2, vcount := 1, attrFee := 0, standby := [10, 11],
+    keyAcc := [(10, 110), (11, 111), (12, 112), (13, 113)] }
+
 -- non-vacuity: the genesis of a chain whose validators' address is account 0
-example : ∃ l, genesis 0 5200000000000000 = some l ∧ l.neoSupply = 100000000 ∧ l.gasSupply = 5200000000000000 :=
-  ⟨_, rfl, rfl, rfl⟩
+example : ∃ l, genesis exEnv 0 5200000000000000 = some l ∧ l.neoSupply = 100000000 ∧ l.gasSupply = 5200000000000000 ∧
+    l.committee = [(10, 0), (11, 0)] ∧ l.nextVals = [10] := by
+  refine ⟨_, rfl, ?_, ?_, ?_, ?_⟩ <;> decide
 
 /-- `inv_step`: every operation of the machine — block start, OnPersist (fee burning, primary and notary
 rewards, deposit charging), a transaction start, any native call with any arguments and any outcome (success,
@@ -49,7 +60,7 @@ theorem inv_step (nt : Nat) (s : St) (op : Op) (h : MInv nt s) : MInv nt (step s
 /-- `inv_reachable`: the invariant holds after every sequence of operations from genesis, in particular at
 every block boundary of every history. -/
 theorem inv_reachable (e : Env) (h : Nat) (gasInit : Int) (l : Ledger) (ops : List Op)
-    (hn : h ≠ e.notary) (hc : e.neoC ≠ e.notary) (hg : genesis h gasInit = some l) :
+    (hn : h ≠ e.notary) (hc : e.neoC ≠ e.notary) (hg : genesis e h gasInit = some l) :
     Inv e.notary (run (initSt e l) ops).cur :=
   (run_inv _ ops (inv_init e h gasInit l hn hc hg)).cur
 
@@ -64,7 +75,7 @@ theorem transfer_false_unchanged (nt : Nat) (t : Tok) (e : Env) (l l' : Ledger) 
   exact ⟨hb, e1, e2, e3, e4, e5, e6, e7⟩
 
 -- non-vacuity: a transfer of more than the balance returns false and leaves the ledger as it was
-example : transferPre .neo ⟨9, 8, 1, 1, 0, [], 5, 0⟩ { neo := [(1, { bal := 3 })], neoSupply := 3 } 1 2 4 true =
+example : transferPre .neo { notary := 9, neoC := 8, csize := 1, vcount := 1, attrFee := 0, index := 5 } { neo := [(1, { bal := 3 })], neoSupply := 3 } 1 2 4 true =
     .ret { neo := [(1, { bal := 3 })], neoSupply := 3 } false := by rfl
 
 
@@ -82,7 +93,8 @@ theorem delta_eq_events (nt : Nat) (s : St) (idx : Nat) (ops : List Op) (h : MIn
 -- non-vacuity: one block with a fee burn and a reward; account 5 burns 7 and is minted 3, net -4
 example :
     let l : Ledger := { gas := [(5, 10)], gasSupply := 10, neoSupply := 100000000, neo := [(5, { bal := 100000000 })], gpb := [(0, 5)] }
-    let s := run (initSt ⟨9, 8, 1, 1, 0, [], 0, 0⟩ l) [.block 1, .onPersist 5 [] [⟨5, 4, 3, none, none⟩]]
+    let s := run (initSt { notary := 9, neoC := 8, csize := 1, vcount := 1, attrFee := 0, keyAcc := [(7, 5)] }
+      { l with nextVals := [7], neVals := [7] }) [.block 1, .onPersist 0 [] [⟨5, 4, 3, none, none⟩]]
     balOf s.cur .gas 5 = 6 ∧ evNet .gas 5 s.cur.events = -4 := by decide
 
 /-- `candidate_record_iff`: on every state satisfying the invariant a candidate record exists iff the key is
@@ -107,5 +119,312 @@ theorem candidate_removed_iff (l : Ledger) (c : Nat) (cd : Cand) (hn : (keys l.c
 example : (modVotes { cands := [(7, ⟨false, 3⟩)] } { bal := 3, vote := some 7 } (-3) false).1.cands = [] := by decide
 -- and a registered one stays with zero votes
 example : (modVotes { cands := [(7, ⟨true, 3⟩)] } { bal := 3, vote := some 7 } (-3) false).1.cands = [(7, ⟨true, 0⟩)] := by decide
+
+/-! ## committee election (native_neo.go getCandidates / computeCommitteeMembers / updateCache)
+
+`computeCommittee e l` is the model of computeCommitteeMembers over the ledger `l`: `candList e l` are the
+registered candidates whose account is not blocked by Policy (with their votes), `Elected e l` says that the
+elected rather than the standby branch is taken.  All statements are for every ledger and configuration. -/
+
+/-- the election never fails once NEO has a supply and the configuration has enough standby keys. -/
+theorem election_total (e : Env) (l : Ledger) (hs : l.neoSupply ≠ 0) (hsb : e.csize ≤ e.standby.length) :
+    (computeCommittee e l).isSome = true := computeCommittee_isSome e l hs hsb
+
+/-- the committee has exactly committee-size members. -/
+theorem committee_size (e : Env) (l : Ledger) (cvs : List (Nat × Int)) (h : computeCommittee e l = some cvs) :
+    cvs.length = e.csize := committee_length e l cvs h
+
+/-- no key is elected twice (the standby keys of the configuration are pairwise different, candidate records
+have one entry per key — part of `Inv`). -/
+theorem committee_no_duplicates (e : Env) (l : Ledger) (cvs : List (Nat × Int)) (hsn : e.standby.Nodup)
+    (hn : (keys l.cands).Nodup) (h : computeCommittee e l = some cvs) : (cvs.map (·.1)).Nodup :=
+  committee_nodup e l cvs hsn hn h
+
+/-- the elected branch is taken iff at least 20 % of the NEO supply votes (`5 * votersCount ≥ totalSupply`) and
+there are at least committee-size eligible candidates. -/
+theorem election_threshold (e : Env) (l : Ledger) (hs : 0 < l.neoSupply) :
+    Elected e l ↔ (l.neoSupply ≤ l.voters * 5 ∧ e.csize ≤ (candList e l).length) := by
+  unfold Elected; rw [turnout_iff _ _ hs]
+
+/-- every member of an elected committee is a registered candidate whose account is not blocked, listed with its
+current votes; a standby committee consists of the first committee-size standby keys, each listed with its votes
+if it is such a candidate and with 0 otherwise. -/
+theorem committee_members_eligible (e : Env) (l : Ledger) (cvs : List (Nat × Int))
+    (h : computeCommittee e l = some cvs) (p : Nat × Int) (hp : p ∈ cvs) :
+    (Elected e l ∧ ∃ cd, (p.1, cd) ∈ l.cands ∧ cd.reg = true ∧ l.blocked.contains (acctOf e p.1) = false ∧ cd.votes = p.2) ∨
+    (¬ Elected e l ∧ p.1 ∈ e.standby.take e.csize ∧
+      ((∃ cd, (p.1, cd) ∈ l.cands ∧ cd.reg = true ∧ l.blocked.contains (acctOf e p.1) = false ∧ cd.votes = p.2) ∨
+       (p.2 = 0 ∧ ∀ v, (p.1, v) ∉ candList e l))) := by
+  rcases committee_member e l cvs h p hp with ⟨he, hm⟩ | ⟨he, hk, hm⟩
+  · exact Or.inl ⟨he, (mem_candList e l p).mp hm⟩
+  · refine Or.inr ⟨he, hk, ?_⟩
+    rcases hm with hm | hm
+    · exact Or.inl ((mem_candList e l p).mp hm)
+    · exact Or.inr hm
+
+/-- in an elected committee nobody outside has strictly more votes than a member, and an outsider with the same
+votes as a member has the larger key. -/
+theorem committee_top_voted (e : Env) (l : Ledger) (cvs : List (Nat × Int)) (he : Elected e l)
+    (h : computeCommittee e l = some cvs) (c : Nat × Int) (hc : c ∈ candList e l) (hout : c ∉ cvs)
+    (m : Nat × Int) (hm : m ∈ cvs) : c.2 ≤ m.2 ∧ (c.2 = m.2 → m.1 < c.1 ∨ m = c) :=
+  committee_top_votes e l cvs he h c hc hout m hm
+
+/-- the result does not depend on the order in which the storage hands out the candidate records. -/
+theorem committee_order_independent (e : Env) (l l' : Ledger) (hp : l'.cands.Perm l.cands) (hb : l'.blocked = l.blocked)
+    (hv : l'.voters = l.voters) (hs : l'.neoSupply = l.neoSupply) : computeCommittee e l' = computeCommittee e l :=
+  computeCommittee_perm_indep e l l' hp hb hv hs
+
+/-- the validators of an epoch are the first `vcount` committee members, in strictly ascending key order. -/
+theorem validators_spec (e : Env) (cvs : List (Nat × Int)) (vs : List Nat) (hn : (cvs.map (·.1)).Nodup)
+    (h : valsOf e cvs = some vs) :
+    vs.length = e.vcount ∧ vs.Pairwise (· < ·) ∧ ∀ k, k ∈ vs ↔ k ∈ (cvs.map (·.1)).take e.vcount :=
+  ⟨(valsOf_spec e cvs vs h).2.2, (valsOf_strict e cvs vs hn h).1, (valsOf_strict e cvs vs hn h).2⟩
+
+/-- 100 NEO, 20 of them voting (exactly 20 %); candidates 13 (5 votes), 10 and 12 (9 votes each), 11 unregistered. -/
+def exLedger : Ledger :=
+  { neoSupply := 100, voters := 20, cands := [(13, ⟨true, 5⟩), (10, ⟨true, 9⟩), (12, ⟨true, 9⟩), (11, ⟨false, 50⟩)] }
+
+-- non-vacuity: the tie between 10 and 12 is broken by the key, the unregistered key with the most votes is out
+example : Elected exEnv exLedger ∧ computeCommittee exEnv exLedger = some [(10, 9), (12, 9)] := by
+  refine ⟨?_, ?_⟩
+  · unfold Elected; decide
+  · decide
+-- one voting NEO less: the standby committee, key 10 with its votes, key 11 (not registered) with 0
+example : ¬ Elected exEnv { exLedger with voters := 19 } ∧
+    computeCommittee exEnv { exLedger with voters := 19 } = some [(10, 9), (11, 0)] := by
+  refine ⟨?_, ?_⟩
+  · unfold Elected; decide
+  · decide
+-- blocking the account of key 10 removes it from the election
+example : computeCommittee exEnv { exLedger with blocked := [110] } = some [(12, 9), (13, 5)] := by decide
+-- another storage order, same result
+example : computeCommittee exEnv { exLedger with cands := [(10, ⟨true, 9⟩), (11, ⟨false, 50⟩), (12, ⟨true, 9⟩), (13, ⟨true, 5⟩)] } =
+    computeCommittee exEnv exLedger := by decide
+example : valsOf exEnv [(12, 9), (10, 9)] = some [12] ∧ valsOf { exEnv with vcount := 2 } [(12, 9), (10, 9)] = some [10, 12] := by
+  decide
+
+/-- `gov_reachable`: after every sequence of operations from genesis — all blocks, epochs, votes, (un)registrations,
+blocked-list changes, faulting transactions — the committee in office and the committee computed for the next epoch
+both have exactly committee-size pairwise different members, the validators of both are their first `vcount`
+members in strictly ascending key order, and the GAS supply equals the amounts of all GAS `Transfer`
+notifications from null minus those to null that were emitted since genesis by executions that were not rolled
+back (`supGap = gasSupply - gasMinted + gasBurned`). -/
+theorem gov_reachable (e : Env) (h : Nat) (gasInit : Int) (l : Ledger) (ops : List Op)
+    (he : EnvOK e) (hn : h ≠ e.notary) (hc : e.neoC ≠ e.notary) (hg : genesis e h gasInit = some l) :
+    GovOK (run (initSt e l) ops).env (run (initSt e l) ops).cur :=
+  have hg0 := genesis_gov e h gasInit l he hg
+  (run_gov _ ops (inv_init e h gasInit l hn hc hg) ⟨he, hg0, hg0⟩).cur
+
+/-- `supply_conserved`: total GAS supply after any history = Σ minted − Σ burnt, the sums ranging over the `Transfer`
+notifications (from = null: genesis supply, block rewards of the primary, the notary nodes and the committee
+member, claimed holder / voter rewards; to = null: system and network fees, registration price). -/
+theorem supply_conserved (e : Env) (h : Nat) (gasInit : Int) (l : Ledger) (ops : List Op)
+    (he : EnvOK e) (hn : h ≠ e.notary) (hc : e.neoC ≠ e.notary) (hg : genesis e h gasInit = some l) :
+    (run (initSt e l) ops).cur.gasSupply = (run (initSt e l) ops).cur.gasMinted - (run (initSt e l) ops).cur.gasBurned := by
+  have := (gov_reachable e h gasInit l ops he hn hc hg).gap
+  unfold supGap at this; omega
+
+/-- in every reachable state the committee reward of PostPersist finds its member (`committee[index % size]`). -/
+theorem postpersist_member_found (e : Env) (h : Nat) (gasInit : Int) (l : Ledger) (ops : List Op) (i : Nat)
+    (he : EnvOK e) (hcs : e.csize ≠ 0) (hn : h ≠ e.notary) (hc : e.neoC ≠ e.notary) (hg : genesis e h gasInit = some l) :
+    ((run (initSt e l) ops).cur.committee[i % (run (initSt e l) ops).env.csize]?).isSome = true := by
+  have hgov := gov_reachable e h gasInit l ops he hn hc hg
+  have : (run (initSt e l) ops).env.csize = e.csize := run_csize _ ops
+  exact committee_index_some hgov (by rw [this]; exact hcs) i
+
+-- non-vacuity: genesis, then a block with a fee burn and the rewards of the primary and of the committee member
+example :
+    let s := run (initSt exEnv ((genesis exEnv 0 1000).getD {})) [.block 1, .onPersist 0 [] [⟨0, 40, 30, none, none⟩], .postPersist]
+    s.cur.gasSupply = 50000960 ∧ s.cur.gasMinted = 50001030 ∧ s.cur.gasBurned = 70 ∧ s.cur.committee.length = 2 := by
+  decide
+
+/-! ### the cached committee is never stale
+
+PostPersist recomputes the next committee only when `votesChanged` is set (native_neo.go:557-573).  `Bnd e s` (Proofs/
+TokensCoh.lean) describes a state between two blocks: while the flag is clear the cached new-epoch committee and
+validators equal the election over the current ledger (`Fresh`), and at the end of an epoch they do so whatever the
+flag.  A `Blk` is OnPersist + transaction-level operations + PostPersist; `runChain` appends consecutive blocks. -/
+
+/-- `chain_coherent`: from genesis, along every chain of blocks (any transactions: votes, transfers, (un)registrations,
+blocked-list changes, faulting ones) that does not stop the node, every state between two blocks is a boundary state.
+Assumption A1: no key's account is the Notary contract. -/
+theorem chain_coherent (e : Env) (h : Nat) (gasInit : Int) (l : Ledger) (bs : List Blk)
+    (hn : h ≠ e.notary) (hc : e.neoC ≠ e.notary) (hg : genesis e h gasInit = some l)
+    (hok : ∀ b ∈ bs, b.ok) (hA : ∀ k, acctOf e k ≠ e.notary)
+    (hnp : (runChain (step (initSt e l) .postPersist) bs).panicked = false) :
+    Bnd e (runChain (step (initSt e l) .postPersist) bs) := by
+  have hm := step_inv _ .postPersist (inv_init e h gasInit l hn hc hg)
+  have hnp0 : (step (initSt e l) .postPersist).panicked = false := by
+    cases hp : (step (initSt e l) .postPersist).panicked with
+    | false => rfl
+    | true => rw [runChain_panicked _ bs hp] at hnp; cases hnp
+  exact (chain_bnd e _ bs hm (genesis_bnd e h gasInit l hg hA hnp0) hok hA hnp).1
+
+/-- `epoch_switch_installs_election`: in a boundary state whose next block starts an epoch, that block's OnPersist
+installs as committee and validators exactly the result of the election over the ledger as the previous block left
+it — the flag-driven caching never serves a stale committee. -/
+theorem epoch_switch_installs_election (e : Env) (s : St) (hb : Bnd e s) (hc : e.csize ≠ 0)
+    (hend : (s.env.index + 1) % e.csize = 0) :
+    computeCommittee e s.cur = some (step s (.block (s.env.index + 1))).cur.committee ∧
+    valsOf e (step s (.block (s.env.index + 1))).cur.committee = some (step s (.block (s.env.index + 1))).cur.nextVals :=
+  let r := (block_bnd e s hb).2.2.2.2.2 hc hend
+  ⟨r.2.2.1, r.2.2.2⟩
+
+/-- `postpersist_total`: in every state reachable from genesis NEO.PostPersist completes (no panic, no error): the
+GAS-per-block record is found (the records always start with the genesis record of index 0 and hold non-negative
+amounts), the committee member exists, the reward mint cannot fail and neither can the re-election.
+Assumption A1: no key's account is the Notary contract. -/
+theorem postpersist_total (e : Env) (h : Nat) (gasInit : Int) (l : Ledger) (ops : List Op)
+    (he : EnvOK e) (hcs : e.csize ≠ 0) (hn : h ≠ e.notary) (hc : e.neoC ≠ e.notary) (hg : genesis e h gasInit = some l)
+    (hA : ∀ k, acctOf e k ≠ e.notary) :
+    (neoPostPersistAll (run (initSt e l) ops).env (run (initSt e l) ops).cur).isSome = true := by
+  have hm := run_inv _ ops (inv_init e h gasInit l hn hc hg)
+  have hg0 := genesis_gov e h gasInit l he hg
+  have hgm := run_gov _ ops (inv_init e h gasInit l hn hc hg) ⟨he, hg0, hg0⟩
+  obtain ⟨_, c2, _, c4, c5⟩ := run_cfg e (initSt e l) ops ⟨rfl, rfl, rfl, rfl, rfl⟩
+  refine neoPostPersistAll_isSome (nt := e.notary) _ _ hgm.env (by rw [c2]; exact hcs) hm.cur ?_ hgm.cur
+  simp only [List.any_eq_true, not_exists, not_and, decide_eq_true_eq, List.mem_map]
+  rintro _ ⟨c, _, rfl⟩
+  simp only [acctOf, c4]
+  exact hA c.1
+
+theorem exEnv_A1 : ∀ k, acctOf exEnv k ≠ exEnv.notary := by
+  intro k
+  simp only [acctOf, exEnv, get]
+  repeat' split
+  all_goals simp
+
+-- non-vacuity: genesis, then two blocks (a registration in the first) that do not stop the node; the second one
+-- is the last of an epoch of the two-member committee
+example :
+    let s0 := step (initSt exEnv ((genesis exEnv 0 1000).getD {})) .postPersist
+    let bs : List Blk := [⟨0, [], [], [.txBegin 0 [⟨0, 128, []⟩], .register 12, .txEnd false]⟩, ⟨0, [], [], []⟩]
+    (∀ b ∈ bs, b.ok) ∧ (runChain s0 bs).panicked = false ∧ (runChain s0 bs).env.index = 2 ∧
+    (runChain s0 bs).cur.cands = [(12, ⟨true, 0⟩)] := by
+  refine ⟨?_, ?_, ?_, ?_⟩
+  · intro b hb; simp at hb; rcases hb with rfl | rfl <;> (intro op hop; simp at hop) <;> try (rcases hop with rfl | rfl | rfl <;> rfl)
+  all_goals decide
+
+/-! ## Notary deposits: the boundaries -/
+
+/-- withdraw reaches the GAS transfer iff the owner witnesses, a deposit exists and the chain height (the block before
+the one being persisted) has reached `till`; then the record is removed and the whole amount is sent. -/
+theorem withdraw_spec (e : Env) (l l' : Ledger) (src : Nat) (wit : Bool) (amt : Int) :
+    withdrawPre e l src wit = some (l', amt) ↔
+      (wit = true ∧ ∃ d, get l.deps src = some d ∧ d.till ≤ e.index - 1 ∧ amt = d.amount ∧
+        l' = { l with deps := del l.deps src }) := withdrawPre_spec e l l' src wit amt
+
+/-- lockDepositUntil succeeds iff witnessed, `till` is at least two above the chain height and not below the
+current `till`. -/
+theorem lock_spec (e : Env) (l : Ledger) (a till : Nat) (wit : Bool) :
+    (lockDeposit e l a till wit).2 = true ↔
+      (wit = true ∧ e.index - 1 + 2 ≤ till ∧ ∃ d, get l.deps a = some d ∧ d.till ≤ till) :=
+  (lockDeposit_spec e l a till wit).1
+
+/-- charging a notary-assisted transaction: a deposit above the fees is reduced, one equal to them is removed, a
+smaller or missing one stops the node. -/
+theorem notary_charge_spec (e : Env) (l : Ledger) (t : TxFee) (k p : Nat) (hs : t.sender = e.notary)
+    (hk : t.nkeys = some k) (hp : t.payer = some p) :
+    notaryCharge e l [t] =
+      match get l.deps p with
+      | none => none
+      | some d =>
+        if d.amount < t.sys + t.net then none
+        else if d.amount = t.sys + t.net then some ({ l with deps := del l.deps p }, (k : Int) + 1)
+        else some ({ l with deps := put l.deps p { d with amount := d.amount - (t.sys + t.net) } }, (k : Int) + 1) :=
+  notaryCharge_one e l t k p hs hk hp
+
+-- non-vacuity: a deposit of 10 till height 7; at index 8 (height 7) it can be withdrawn, at index 7 not; fees of
+-- exactly 10 remove it, fees of 9 leave 1
+example :
+    let l : Ledger := { deps := [(4, ⟨10, 7⟩)] }
+    (withdrawPre { exEnv with index := 8 } l 4 true).isSome = true ∧ (withdrawPre { exEnv with index := 7 } l 4 true).isSome = false ∧
+    (lockDeposit { exEnv with index := 7 } l 4 8 true).2 = true ∧ (lockDeposit { exEnv with index := 7 } l 4 7 true).2 = false ∧
+    (notaryCharge exEnv l [⟨90, 4, 6, some 0, some 4⟩]).map (·.1.deps) = some [] ∧
+    (notaryCharge exEnv l [⟨90, 4, 5, some 0, some 4⟩]).map (·.1.deps) = some [(4, ⟨1, 7⟩)] ∧
+    (notaryCharge exEnv l [⟨90, 5, 6, some 0, some 4⟩]).isSome = false := by decide
+
+/-! ## GAS rewards -/
+
+/-- the loop of CalculateNEOHolderReward over the GAS-per-block records (newest first) is the sum of
+GetGASPerBlock over the heights of the interval. -/
+theorem holder_reward_is_interval_sum (recs : List (Nat × Int)) (start end_ : Nat) :
+    holderSum recs start end_ = sumIv (gpbAt recs) start end_ := holderSum_spec recs start end_
+
+-- non-vacuity: 5 per block from 0, 3 per block from 7: heights 4,5,6 give 15, heights 7,8,9 give 9
+example : holderSum [(7, 3), (0, 5)] 4 10 = 24 ∧ sumIv (gpbAt [(7, 3), (0, 5)]) 4 10 = 24 := by decide
+
+/-- `claim_no_double_no_loss`: an account whose balance and vote do not change and that claims at height `b` and
+again at height `c` receives in total at most what one claim at `c` gives, and at least that minus 2 datoshi
+(the two floored terms).  Exact equality does not hold (see the example). -/
+theorem claim_no_double_no_loss (l l' : Ledger) (acc : NeoAcc) (b c : Nat) (extra : List (Nat × Int)) (x y z : Int)
+    (hab : acc.height ≤ b) (hbc : b ≤ c) (hpos : 0 < acc.bal)
+    (hg : l'.gpb = l.gpb ++ extra) (hex : ∀ r ∈ extra, b ≤ r.1)
+    (hx : calcBonus l acc b = some x) (hy : calcBonus l' (claimed l acc b) c = some y) (hz : calcBonus l' acc c = some z) :
+    x + y ≤ z ∧ z ≤ x + y + 2 := claim_split l l' acc b c extra x y z hab hbc hpos hg hex hx hy hz
+
+-- non-vacuity: 150 000 000 datoshi... with 3 NEO and 5 GAS per block: one block gives 1.5 datoshi-units → 1, two blocks 3
+example :
+    let l : Ledger := { gpb := [(0, 500000000)] }
+    let acc : NeoAcc := { bal := 3, height := 1 }
+    calcBonus l acc 2 = some 1 ∧ calcBonus l (claimed l acc 2) 3 = some 1 ∧ calcBonus l acc 3 = some 3 := by decide
+
+/-- OnPersist of GAS and Notary: the supply drops by exactly the system fees plus the part of the notary service
+fees that is not paid out; the primary receives the network fees minus the service fees. -/
+theorem onpersist_supply (e : Env) (l l1 l2 : Ledger) (primary : Nat) (notaries : List Nat) (txs : List TxFee)
+    (h1 : gasOnPersist e l primary txs = some l1) (h2 : notaryOnPersist e l1 notaries txs = some l2) :
+    l2.gasSupply = l.gasSupply - sysTotal txs - (feeUnits txs * e.attrFee - notaryMint e notaries txs) ∧
+    primaryFee e txs = netTotal txs - feeUnits txs * e.attrFee :=
+  ⟨onPersist_supply e l l1 l2 primary notaries txs h1 h2, primaryFee_eq e txs⟩
+
+/-- the notary nodes together get at most the service fees collected; what is lost is less than one datoshi per
+node (everything when no node is designated). -/
+theorem notary_reward_bounds (e : Env) (notaries : List Nat) (txs : List TxFee) (hf : 0 ≤ e.attrFee) :
+    0 ≤ notaryMint e notaries txs ∧ notaryMint e notaries txs ≤ feeUnits txs * e.attrFee ∧
+    (feeUnits txs ≠ 0 → notaries ≠ [] → feeUnits txs * e.attrFee - notaryMint e notaries txs < notaries.length) :=
+  notaryMint_bounds e notaries txs hf
+
+/-- PostPersist mints exactly 10 % of the GAS generated in the next block's index to the committee member. -/
+theorem postpersist_supply (e : Env) (l l' : Ledger) (h : neoPostPersistAll e l = some l') :
+    ∃ gas, gasPerBlockAt l.gpb.reverse (e.index + 1) = some gas ∧ l'.gasSupply = l.gasSupply + gas * 10 / 100 :=
+  neoPostPersistAll_supply e l l' h
+
+/-- `voter_reward_per_member`: at an epoch start PostPersist raises the GAS-per-vote value of every committee member
+(keys pairwise different) by exactly `gpvInc`: (2 for a validator position, else 1) × voterReward / votes, with the
+votes read from the storage when a vote happened since OnPersist and from the cached committee otherwise; nothing
+for a member without votes. -/
+theorem voter_reward_per_member (e : Env) (vr : Int) (l : Ledger) (cs : List (Nat × Int)) (j : Nat) (pub : Nat) (cached : Int)
+    (hn : (cs.map (·.1)).Nodup) (hj : cs[j]? = some (pub, cached)) :
+    latestGpv (voterRewards e vr l cs 0) pub = latestGpv l pub + gpvInc e vr l pub cached j := by
+  have := voterRewards_member e vr l cs 0 j pub cached hn hj
+  simpa using this
+
+/-- `voter_rewards_epoch_bound`: what the voters of all committee members together can claim from one epoch start
+(Σ votes × increment, in units of 10^-8 datoshi) is at most 80 % of the GAS generated in the epoch's committee-size
+blocks — the integer divisions only ever round the voters' share down. -/
+theorem voter_rewards_epoch_bound (e : Env) (gas : Int) (l : Ledger) (cs : List (Nat × Int)) (hg : 0 ≤ gas)
+    (hlen : cs.length = e.csize) (hc : 0 < e.csize + e.vcount) :
+    epochAccrual e (80 * gas * (100000000 * (e.csize : Int)) / ((e.csize : Int) + (e.vcount : Int)) / 100) l cs 0 ≤
+      80 * gas * (100000000 * (e.csize : Int)) / 100 := epochAccrual_bound e gas l cs hg hlen hc
+
+-- non-vacuity: committee [10 (validator), 12] with cached votes 7 and 3, 5 GAS per block: voterReward =
+-- 80*5e8*(1e8*2)/3/100 = 26666666666666666; member 10 gets 2*vr/7, member 12 vr/3
+example :
+    let vr : Int := 80 * 500000000 * (100000000 * 2) / 3 / 100
+    let l : Ledger := { votesChanged := false }
+    let l' := voterRewards exEnv vr l [(10, 7), (12, 3)] 0
+    vr = 26666666666666666 ∧ latestGpv l' 10 = 7619047619047618 ∧ latestGpv l' 12 = 8888888888888888 ∧
+    epochAccrual exEnv vr l [(10, 7), (12, 3)] 0 = 79999999999999990 ∧
+    80 * 500000000 * (100000000 * 2) / 100 = (80000000000000000 : Int) := by decide
+
+-- non-vacuity: three transactions, two with the attribute (NKeys 1 and 0: 3 units at 10 each = 30), 2 notary nodes:
+-- 15 each; system fees 6; the primary gets 20 + 30 + 40 - 30 = 60
+example :
+    let e : Env := { notary := 90, neoC := 91, csize := 1, vcount := 1, attrFee := 10 }
+    let l : Ledger := { gas := [(1, 1000)], gasSupply := 1000 }
+    let txs : List TxFee := [⟨1, 1, 20, some 1, none⟩, ⟨1, 2, 30, some 0, none⟩, ⟨1, 3, 40, none, none⟩]
+    ∃ l1 l2, gasOnPersist e l 7 txs = some l1 ∧ notaryOnPersist e l1 [5, 6] txs = some l2 ∧
+      l2.gasSupply = 994 ∧ primaryFee e txs = 60 ∧ notaryMint e [5, 6] txs = 30 := by
+  refine ⟨_, _, rfl, rfl, ?_, ?_, ?_⟩ <;> decide
 
 end NeoModel.Tokens
